@@ -130,6 +130,11 @@ impl Ctx {
         }
     }
 
+    /// Progress / trace bookkeeping for executions that happen outside this process.
+    pub fn tick_external(&mut self, case: &Value) {
+        self.tick(&|| case.to_string());
+    }
+
     /// Execute the real `apply` once.
     pub fn exec(&mut self, rule: &Value, data: &Value) -> Obs {
         self.tick(&|| json!({"rule": rule, "data": data}).to_string());
